@@ -144,7 +144,7 @@ func atoi(s string) int {
 }
 
 // deadline of a guarded call; instrumented builds (-race) and loaded machines scale it
-var guardTime = 3 * time.Second
+var guardTime = 8 * time.Second
 
 func init() {
 	if v, err := strconv.Atoi(os.Getenv("VERIF_GUARD_SCALE")); err == nil && v > 1 {
